@@ -68,6 +68,25 @@ CHECKS = {
             'command set is parsed by an independent reader: group length, ascending tags, even lengths, '
             'command field code, data-set-type flag versus data fragments actually sent.',
             'Trusts vf/refcmd.py (command dictionary from PS3.7 Annex E).', 'refcmd', 'DESIGN.md#C08'),
+    'C12': (True, 'exploration',
+            'structure-aware mutation fuzzing + Hypothesis random streams on the simulated transport (thorough: atheris coverage-guided campaign); crash/hang/well-formed-output/idle/user-told oracle inside the target',
+            'From 8 protocol-state prefixes the real provider loop is fed ~900 structure-aware mutations of valid '
+            'PDUs, 40 semantically hostile P-DATA streams and Hypothesis-generated mixes under varying '
+            'segmentation, followed by the peer closing and ARTIM passing; the loop must return normally, never '
+            'block, write only well-formed PDUs, end idle and closed, tell an engaged user, and answer certainly '
+            'undecodable PDUs with A-ABORT.',
+            'Hang = structural (blocking recv with nothing scheduled, or 40000 scheduling points). Leniently '
+            'accepted malformed PDUs are not violations. 4 GiB declared lengths are not streamed.',
+            'simnet', 'DESIGN.md#C12'),
+    'C13': (True, 'fault_enumeration',
+            'exhaustive fault injection over a scenario corpus on the simulated transport: disconnect at every byte prefix, silence at every ARTIM arming point, kill/stop at every quiescent point',
+            'For each of 16 conversations the peer disconnects after every byte prefix (with/without the next '
+            'local step racing it); 13 silence points are checked just before and just after the ARTIM deadline '
+            '(also with a chattering peer); kill and stop() are injected at every quiescent point; '
+            'Association.kill() for both stop() outcomes. The loop must return, end idle/closed, ARTIM stopped, '
+            'and an engaged user must have been told.',
+            'Simulated time; exhaustive over the corpus of conversations, not over all conversations.',
+            'simnet', 'DESIGN.md#C13'),
     'C18': (True, 'exploration',
             'exhaustive enumeration against an independent status table + metamorphic precedence test',
             'All 65536 codes x 24 command choices are constructed and compared with a table '
